@@ -49,6 +49,9 @@ func Gen(t *rapid.T) *Case {
 	for i := 0; i < n; i++ {
 		c.Ops = append(c.Ops, genOp(t, names, false))
 	}
+	if rapid.IntRange(0, 2).Draw(t, "asOptions") == 0 {
+		c.Pre = rapid.IntRange(1, n).Draw(t, "pre")
+	}
 	return c
 }
 
